@@ -142,4 +142,14 @@ def to_rat(e, leaf, strip, depth=0):
             return a + b if op == 'Add' else a - b if op == 'Sub' else a * b if op == 'Mul' else a / b
     if k == 'call' and e[1].endswith('tools::do_divition'):
         return to_rat(e[2][0], leaf, strip, depth + 1) / to_rat(e[2][1], leaf, strip, depth + 1)
+    if k == 'field':
+        # a component of a small operand struct / tuple built a few lines earlier (`ops.number` with ops = Operands { number: .. })
+        base = strip(e[1])
+        if base[0] == 'aggr':
+            names = base[3] if len(base) > 3 and base[3] else []
+            nm = str(e[2])
+            if nm in names and len(names) == len(base[2]):
+                return to_rat(base[2][list(names).index(nm)], leaf, strip, depth + 1)
+            if nm.lstrip('#').isdigit() and int(nm.lstrip('#')) < len(base[2]) and (base[1] == 'tuple' or not names):
+                return to_rat(base[2][int(nm.lstrip('#'))], leaf, strip, depth + 1)
     raise NotArithmetic('node %s' % k)
